@@ -105,6 +105,9 @@ pub struct MCellT {
     pub insts: Vec<MInstT>,
     /// some cut request lies on a stretch of track an instance blocks (only the unrealisable-requests sub-check)
     pub cut_on_block: bool,
+    /// a leaf that has only an abstract view, with a two-step outline: x = [size.0, steps.0], y = [steps.1, size.1]
+    /// (its instances block their bounding box)
+    pub steps: Option<(i64, i64)>,
 }
 #[derive(Clone, Debug, PartialEq, Eq, Hash)]
 pub struct MLibT {
@@ -242,7 +245,7 @@ fn gen_cell(src: &mut Src, st: &MStack, name: &str, lower: &[MCellT], max_size: 
             size.1 += 1;
         }
     }
-    let mut cell = MCellT { name: name.to_string(), size, metals, cuts: vec![], assigns: vec![], insts: vec![], cut_on_block: false };
+    let mut cell = MCellT { name: name.to_string(), size, metals, cuts: vec![], assigns: vec![], insts: vec![], cut_on_block: false, steps: None };
     if bad_size || metals == 0 {
         return cell;
     }
@@ -397,7 +400,14 @@ pub fn gen_tlib(src: &mut Src, allow_asym_flip: bool) -> MLibT {
     let mut cells = vec![];
     let nleaf = src.usize_in(0, 2);
     for i in 0..nleaf {
-        let c = gen_cell(src, &stack, &format!("leaf{}", i), &[], 3, false);
+        let mut c = gen_cell(src, &stack, &format!("leaf{}", i), &[], 3, false);
+        // one leaf in six is a black box: an abstract view only, with an L-shaped outline
+        if c.metals > 0 && c.size.0 >= 2 && c.size.1 >= 2 && src.prob(1, 6) {
+            c.steps = Some((src.i64_in(1, c.size.0 - 1), src.i64_in(1, c.size.1 - 1)));
+            c.cuts.clear();
+            c.assigns.clear();
+            c.cut_on_block = false;
+        }
         cells.push(c);
     }
     let bad = src.prob(1, 12);
@@ -477,6 +487,12 @@ pub fn build(m: &MLibT) -> Result<BuiltT, String> {
     let mut lib = tet::library::Library::new("tlib");
     let mut ptrs: Vec<Ptr<Cell>> = vec![];
     for c in &m.cells {
+        if let Some((w2, h1)) = c.steps {
+            use tet::coords::PrimPitches as PP;
+            let outline = Outline { x: vec![PP::x(c.size.0 as isize), PP::x(w2 as isize)], y: vec![PP::y(h1 as isize), PP::y(c.size.1 as isize)] };
+            ptrs.push(lib.cells.add(Cell::from(tet::abs::Abstract::new(c.name.clone(), c.metals, outline))));
+            continue;
+        }
         let mut l = Layout::new(c.name.clone(), c.metals, Outline::rect(c.size.0 as isize, c.size.1 as isize).map_err(|e| format!("{:?}", e))?);
         for (k, i) in c.insts.iter().enumerate() {
             l.instances.add(Instance { inst_name: format!("i{}", k), cell: ptrs[i.target].clone(), loc: Place::Abs((i.loc.0 as isize, i.loc.1 as isize).into()), reflect_horiz: i.rh, reflect_vert: i.rv });
@@ -753,7 +769,13 @@ fn oracle(m: &MLibT, ctx: &mut Ctx) -> Result<(), String> {
     });
     let rl = rawlib.read().map_err(|_| "lock")?;
     let bt = BuiltT { lib: tet::library::Library::new("x"), stack: crate::gen::tetris::empty_stack(), metal_keys, via_keys };
+    if m.cells.iter().any(|c| c.steps.is_some()) {
+        ctx.label("instance of a black-box cell with an L-shaped outline");
+    }
     for (ci, c) in m.cells.iter().enumerate() {
+        if c.steps.is_some() {
+            continue; // no layout of its own to check
+        }
         let rc = rl.cells.iter().find(|p| p.read().map(|r| r.name == c.name).unwrap_or(false)).ok_or_else(|| format!("compiled library lacks cell {}", c.name))?;
         let rc = rc.read().map_err(|_| "lock")?;
         check_cell(m, ci, &rc, &bt).map_err(|e| format!("{}\nstack {:?}\ncell {:?}", e, m.stack, c))?;
@@ -796,7 +818,7 @@ fn literal_libs() -> Vec<(&'static str, MLibT)> {
                 ],
                 vias: vec![(2, 2)],
             },
-            cells: vec![MCellT { name: "top".into(), size: (2, 1), metals: 1, cuts: vec![(0, 0, 1, 0)], assigns: vec![], insts: vec![], cut_on_block: false }],
+            cells: vec![MCellT { name: "top".into(), size: (2, 1), metals: 1, cuts: vec![(0, 0, 1, 0)], assigns: vec![], insts: vec![], cut_on_block: false, steps: None }],
         },
     )]
 }
@@ -816,7 +838,7 @@ fn literal_port_on_rails_only_layer(ctx: &mut Ctx) -> Result<(), String> {
     use TT::*;
     let m = MLibT {
         stack: MStack { prim: (120, 120), metals: vec![MMetal { horiz: true, entries: vec![(Gnd, 8), (Gap, 104), (Pwr, 8)], repeat: None, offset: 0, overlap: 0, flip: false, cutsize: 2, m: 1 }], vias: vec![] },
-        cells: vec![MCellT { name: "leaf0".into(), size: (1, 1), metals: 1, cuts: vec![], assigns: vec![], insts: vec![], cut_on_block: false }],
+        cells: vec![MCellT { name: "leaf0".into(), size: (1, 1), metals: 1, cuts: vec![], assigns: vec![], insts: vec![], cut_on_block: false, steps: None }],
     };
     ctx.label("literal: abstract edge port on a layer without signal tracks (fixed: 29dd2eb)");
     ctx.nontrivial(hash_of(&m));
@@ -902,7 +924,7 @@ fn asym_case(src: &mut Src, ctx: &mut Ctx) -> Result<(), String> {
 }
 fn run(run: &mut Run) {
     run.rule("Stack family: 1-4 metal layers alternating direction (either first), entry patterns of optional ground/power rails, 1-4 signals (none at all on one railed layer in eight) and gaps with even widths, written flat or with Repeat groups, offset in {0, -rail/2, small}, overlap in {0, rail width}, with and without every-other-period flipping (palindromic and, in a second sub-check, asymmetric width patterns; tracks numbered in the order their period lists them), layer pitch 1-3 primitive pitches; vias between adjacent metals. Cells: rectangular outlines that are whole periods of every used layer (1 in 12 deliberately not: error required), cuts and assignments at in-range crossings kept clear of each other and of instances with one net per track, leaf-cell instances in all four reflections aligned to whole periods. Oracle (R-tracks): per layer and track, wire pieces + requested cuts + true instance extents tile [0, span]; one via per assignment centred on the crossing; nets on exactly the covering pieces; rails VDD/VSS. Non-trivial = a cut and an assignment and >= 2 metal layers; distinct by hash.");
-    run.assume("non-rectangular outlines, odd gap/cut/via sizes (track widths are odd one time in four), instances not aligned to whole periods are not generated; abstract edge ports only in the compile-edge-ports sub-check (outcome: error or one rectangle per port)");
+    run.assume("non-rectangular outlines of compiled cells (black-box leaves may be L-shaped), odd gap/cut/via sizes (track widths are odd one time in four), instances not aligned to whole periods are not generated; abstract edge ports only in the compile-edge-ports sub-check (outcome: error or one rectangle per port)");
     run.min_nontrivial = 100;
     let n = literal_libs().len() as u32 + 1;
     run.literals("literals", &(0..n).map(|i| vec![0, i]).collect::<Vec<_>>(), &literal_case);
